@@ -37,6 +37,9 @@ P = {
  "C13": ("path pairing rules, edge-deletion reachability for the rollback trigger, expression normal form + dimension for the advertised delay, decision table of the rate error handler, must-lockset for the critical section",
          "Structural necessary conditions of 'rejections cost nothing': debit paired with lastConsumed on every path and undone exactly by rollback; the set rolls back every bucket exactly on firstErr != nil || maxDelay > 0 and folds delays only from error-free buckets; over-burst returns an error before any debit; the advertised delay has normal form (tokens-available) x timePerToken; the limiter surfaces the bucket error first and the same delay as MaxRateError; the handler answers 429 with X-Retry-In = that delay unrounded, set before WriteHeader; consume and rollback of one request form one critical section under the limiter mutex. Level 'other'.",
          "NOT decided: that waiting the advertised delay suffices, idle refill time (integer-division arithmetic over reachable states). Trusted: go/ssa, analyser.", "3/C13"),
+ "C10": ("edge-guard with linear normal forms (cap), control dependence on the good flag, event/result correlation for the back-off timer, must-lockset on the timer, if-then-else shape of the convergence step",
+         "Structural necessary conditions: increased weight stored only on C - k*cur >= 0 with C <= 4096; increases control-dependent on the record's good flag which is assigned from the splitter's good set; normalisation uniform; all weight applications on the timer-expired edge evaluated under the mutex and followed by re-arming now+backoff; reset() restores/re-applies all records, re-arms the timer and re-allocates the ratings buffer to len(servers); convergence step is max(configured, current/factor). Level 'other'.",
+         "NOT decided: weight >= 1 floor after gcd normalisation, 'loses share within two back-off intervals', 'configured proportions within six adjustments', the outlier statistic: numerical facts over rating histories. Trusted: go/ssa, analyser.", "3/C10"),
 }
 
 NA = {}
